@@ -144,6 +144,10 @@ def main(ctx):
                         jobs.append({"kind": "seqs", "cfg": c, "role": role, "seqs": cseqs[i:i + 60],
                                      "tier": tier, "light": True})
         jobs.append({"kind": "pmceparams", "tier": tier})
+        if ei in (0, 3) or tier == "thorough":
+            for c in [c for c in cfgs if not c["autofrag"] and c["mask"] == "default"]:
+                for part in range(4):
+                    jobs.append({"kind": "twoconn", "cfg": c, "tier": tier, "part": part, "parts": 4})
         # handshake-coalesced sends and two-direction interleavings
         for c in cfgs:
             if c["autofrag"]:
@@ -158,7 +162,7 @@ def main(ctx):
     ctx.coverage["traces_validated_against_impl"] = int(ctx.counters["evaluations"])
     ctx.coverage["distinct_nontrivial"] = int(ctx.counters["nontrivial"])
     for n in ("op_sequences", "segmentations", "messages_delivered", "compressed_frames",
-              "masked_frames", "unmasked_frames", "fragmented_messages", "coalesce_execs", "pmce_parameter_execs",
+              "masked_frames", "unmasked_frames", "fragmented_messages", "coalesce_execs", "pmce_parameter_execs", "two_connection_execs",
               "duplex_execs", "queued_writes", "streammix_execs", "close_after_queued_sends"):
         ctx.require(n)
 
@@ -557,6 +561,8 @@ def job(a):
         return _job_streammix(a, env, seed)
     if kind == "pmceparams":
         return _job_pmceparams(a, env, seed)
+    if kind == "twoconn":
+        return _job_twoconn(a, env, seed)
     cfg, role, tier = a["cfg"], a["role"], a["tier"]
     light = a.get("light", False)
     stats = {"op_sequences": 0, "segmentations": 0, "nontrivial": 0, "messages_delivered": 0,
@@ -814,6 +820,77 @@ def _job_pmceparams(a, env, seed):
     return {"evals": evals, "viol": viol,
             "stats": {"pmce_parameter_execs": evals, "nontrivial": evals, "messages_delivered": 12 * evals},
             "samples": [{"kind": "pmceparams", "layouts": len(PMCE_LAYOUTS), "executions": evals}]}
+
+
+def _job_twoconn(a, env, seed):
+    """two connections between the SAME client factory and the SAME server factory, alive together:
+    the operations of a sequence go out on connection 1 and on connection 2 alternately (every
+    interleaving pattern of length <= 3 over the reduced alphabet), one PreparedMessage OBJECT is sent
+    on both connections of a factory (broadcast), and the octets of the two connections are delivered
+    in alternating small segments.  Each application receives exactly what was sent on ITS connection
+    (nothing a factory hands to its connections - maskers, validators, prepared frames, compression
+    contexts, queues - may carry over from one connection to the other)."""
+    import itertools
+    from harness import ws
+    cfg = a["cfg"]
+    viol = []
+    evals = 0
+    small = [o for o in ops_small(a["tier"]) if o[0] in ("msg", "stream", "frames", "prepared", "chop")]
+    seqs = [list(s_) for s_ in itertools.product(small, repeat=2)]
+    seqs = seqs[a["part"]::a["parts"]]
+    for seq in seqs:
+        for sender in ("client", "server"):
+            p1 = build_pair(cfg).handshake()
+            p2 = ws.Pair(sibling=p1).handshake()
+            for pr in (p1, p2):
+                if cfg["compress"] and pr.c.proto._perMessageCompress is None:
+                    raise RuntimeError("harness: compression not negotiated")
+            sent = {1: [], 2: []}
+            fac = p1.cf if sender == "client" else p1.sf
+            # one prepared message object for both connections of the factory
+            pm_payload = payload(200, True, 99, seed)
+            pm = fac.prepareMessage(pm_payload, True)
+            for i, op in enumerate(seq):
+                for n, pr in ((1, p1), (2, p2)):
+                    conn = pr.c if sender == "client" else pr.s
+                    # the same operation with different payloads on the two connections
+                    do_op(conn.proto, fac, op, 2 * i + n, seed, sent[n], dnc_stream=bool(cfg["compress"]))
+                if i == 0:
+                    for n, pr in ((1, p1), (2, p2)):
+                        (pr.c if sender == "client" else pr.s).proto.sendPreparedMessage(pm)
+                        sent[n].append((pm_payload, True, None))
+            d = "c2s" if sender == "client" else "s2c"
+            for pr in (p1, p2):
+                pr.flush_timers()
+                pr.collect()
+            for _ in range(10 ** 6):
+                if not p1.wire[d] and not p2.wire[d]:
+                    break
+                for pr in (p1, p2):
+                    if pr.wire[d]:
+                        pr.deliver(d, 11)
+            for pr in (p1, p2):
+                pr.settle()
+            evals += 1
+            for n, pr in ((1, p1), (2, p2)):
+                rcv = pr.s if sender == "client" else pr.c
+                got = [(bytes(e[1]), e[2]) for e in rcv.proto.rec if e[0] == "onMessage"]
+                want = [(pl, b) for (pl, b, _) in sent[n]]
+                if got != want or pr.escapes() or rcv.proto.state != 3:
+                    if len(viol) < 3:
+                        viol.append({"sig": "C01|delivery|two-connections-one-factory|%s|%s" % (
+                            sender, "pmce" if cfg["compress"] else "plain"),
+                            "desc": "[%s fw=%s nvx=%s] ops=%s on two connections of one factory pair, sender %s: connection %d "
+                                    "received %d/%d messages intact (lengths %s, expected %s), state %s, escapes %r" % (
+                                        _cfgid(cfg, sender), env.get("fw"), env.get("nvx"), seq, sender, n,
+                                        sum(1 for x, y in zip(got, want) if x == y), len(want),
+                                        [len(x[0]) for x in got][:8], [len(x[0]) for x in want][:8],
+                                        rcv.proto.state, [repr(e)[:100] for e in pr.escapes()[:1]]),
+                            "replay": {"env": {"fw": env.get("fw"), "nvx": str(env.get("nvx"))},
+                                       "func": "props.c01:job", "arg": a}})
+    return {"evals": evals, "viol": viol,
+            "stats": {"two_connection_execs": evals, "nontrivial": evals, "messages_delivered": 6 * evals},
+            "samples": [{"kind": "twoconn", "cfg": _cfgid(cfg, "both"), "sequences": len(seqs)}]}
 
 
 def _job_streammix(a, env, seed):
